@@ -507,6 +507,12 @@ def fieldsLoop (rec : Bytes → Option Nat → Res) (data : Bytes) : List Field 
           | _ => flags
         fieldsLoop rec data rest i' flags' (steps + 1 + s)
 
+/-- a bare call (`deserialize(data, False, args)`) has `schema = None`, so the "untouchables" test of the bytes branch
+(`schema is not None and schema.name in self.untouchables …`) is false: EVERY bytes field is re-parsed, also the `data`
+field of `adnl.message.part` / `overlay.broadcastFec` that is left alone when the object is parsed boxed -/
+def bareFields (fs : List Field) : List Field :=
+  fs.map (fun f => match f.ty with | .bytes _ => { f with ty := .bytes true } | _ => f)
+
 /-- one level of `deserialize(data, boxed, args)` given the next level `rec` -/
 def deserLevel (tbl : Table) (rec : Bytes → Option Nat → Res) (data : Bytes) (mode : Option Nat) : Res :=
   match mode with
@@ -514,7 +520,7 @@ def deserLevel (tbl : Table) (rec : Bytes → Option Nat → Res) (data : Bytes)
     match byId tbl (data.take 4) with
     | none => .ok data.length 1                    -- unknown constructor: `return data, len(data)`
     | some s => fieldsLoop rec data (fieldsOf tbl s) 4 none 1
-  | some s => fieldsLoop rec data (fieldsOf tbl s) 0 none 1
+  | some s => fieldsLoop rec data (bareFields (fieldsOf tbl s)) 0 none 1
 
 /-- `TlSchemas.deserialize`; fuel = recursion depth -/
 def deser (tbl : Table) : Nat → Bytes → Option Nat → Res
